@@ -100,6 +100,40 @@ Proof.
   rewrite H, Hf, Hc, Hg, Hv. reflexivity.
 Qed.
 
+(* a block opened directly in a subroutine body resolves every name as the body does: the body's own
+   names, then the global constants (and nothing else of the caller) *)
+Theorem block_in_function_reads_as_body s x :
+  in_function s = true -> scopes s <> [] ->
+  get_visible (push_scope (push_ctx CBlock s)) x = get_visible s x.
+Proof.
+  intros Hf Hne.
+  assert (Hg : in_global s = false).
+  { unfold in_function, in_global in *. apply andb_true_iff in Hf as [_ Hf].
+    destruct (top_ctx s); simpl in *; try discriminate. rewrite andb_false_r. reflexivity. }
+  assert (Hb : in_block s = false).
+  { unfold in_function, in_block in *. apply andb_true_iff in Hf as [_ Hf].
+    destruct (top_ctx s); simpl in *; try discriminate. rewrite andb_false_r. reflexivity. }
+  assert (Hc : top_ctx s = CFunction).
+  { unfold in_function in Hf. apply andb_true_iff in Hf as [_ Hf]. destruct (top_ctx s); simpl in *; try discriminate. reflexivity. }
+  unfold get_visible at 2. rewrite Hg, Hf, Hb. cbn [orb].
+  destruct s as [scs cs inc nq nc al qs als fs fm crs gs sb ll qd cd mq mc n1 n2 gst].
+  cbv [in_global in_function in_gate in_block nscopes top_ctx curr_scope global_scope push_scope push_ctx
+       with_scopes with_ctxs scopes ctxs get_visible] in *.
+  destruct scs as [|b scs']; [contradiction|].
+  destruct cs as [|c cs']; cbn in Hc; [discriminate|]. subst c.
+  destruct scs' as [|g0 rest]; [cbn in Hf; discriminate|].
+  clear Hf Hb Hg Hne.
+  cbn [hd ctx_eqb length Nat.eqb Nat.ltb Nat.leb combine block_walk negb].
+  change (Datatypes.length ([] :: b :: g0 :: rest)) with (S (S (S (Datatypes.length rest)))).
+  change (Datatypes.length (b :: g0 :: rest)) with (S (S (Datatypes.length rest))).
+  cbn [Nat.eqb Nat.ltb Nat.leb]. rewrite ?andb_false_r, ?andb_true_r. cbn [orb andb].
+  change (sget x []) with (@None var).
+  unfold global_const.
+  change (last ([] :: b :: g0 :: rest) []) with (last (b :: g0 :: rest) []).
+  destruct (sget x b); [reflexivity|].
+  destruct (sget x (last (b :: g0 :: rest) [])) as [v|]; [destruct (v_const v)|]; reflexivity.
+Qed.
+
 (* ---------- for-loop ranges are inclusive of their end, for either step sign ---------- *)
 Theorem for_range_inclusive a b s l x :
   py_range a (b + (if 0 <? s then 1 else -1)) s = Ok l ->
